@@ -55,7 +55,7 @@ type salSpec struct {
 	text string
 }
 
-var salQuick = []salSpec{{true, -1, ""}, {false, 0, ""}, {true, 1, ""}, {true, 2147483647, "0x7fffffff"}}
+var salQuick = []salSpec{{true, -2, ""}, {true, -1, ""}, {false, 0, ""}, {true, 1, ""}, {true, 2147483647, "0x7fffffff"}}
 var salFull = []salSpec{{true, -2147483648, ""}, {true, -1, "-01"}, {false, 0, ""}, {true, 0, "0"}, {true, 1, "0x1"}, {true, 2147483647, ""}, {true, 8, "010"}, {true, -2147483648, "-0x80000000"}}
 
 func worldIB(i int64, b bool) func() *ref.World {
